@@ -1199,11 +1199,13 @@ func (p *prover) edgeFacts(s *factSet, fn *ssa.Function, at ssa.Instruction, see
 // hypF: an induction hypothesis about the phis of block blk; usable only where blk dominates
 // (on the entry edges of blk the phis are not defined yet: using the hypothesis there would be circular)
 type hypF struct {
-	f     fact
-	blk   *ssa.BasicBlock // nil: unconditional
-	cond  ssa.Value       // when set: the hypothesis is "cond == truth" (the condition of the edge being followed)
-	truth bool
-	via   ssa.Instruction // when set: control passed this instruction, the conditions dominating it held
+	f      fact
+	guard  *ssa.Phi // when set: the fact holds whenever this boolean phi of blk has the value gtruth
+	gtruth bool
+	blk    *ssa.BasicBlock // nil: unconditional
+	cond   ssa.Value       // when set: the hypothesis is "cond == truth" (the condition of the edge being followed)
+	truth  bool
+	via    ssa.Instruction // when set: control passed this instruction, the conditions dominating it held
 }
 
 // edgeHyp: the condition under which control goes from pred to blk
@@ -1249,6 +1251,9 @@ func (p *prover) collectMulti(fn *ssa.Function, at ssa.Instruction, goalTerms []
 	seen := map[term]bool{}
 	for _, h := range hyp {
 		if usable(h, at) {
+			if h.guard != nil && !guardHolds(h.guard, h.gtruth, at) {
+				continue
+			}
 			if h.cond != nil {
 				p.condFacts(s, h.cond, h.truth, seen)
 				continue
@@ -1273,6 +1278,9 @@ func (p *prover) collectMulti(fn *ssa.Function, at ssa.Instruction, goalTerms []
 	if !p.inProgress[fn] || !direct {
 		for _, h := range p.invariants(fn) {
 			if usable(h, at) {
+				if h.guard != nil && !guardHolds(h.guard, h.gtruth, at) {
+					continue
+				}
 				s.le(h.f.a, h.f.b, h.f.c)
 				p.defs(s, h.f.a, seen, 0)
 				p.defs(s, h.f.b, seen, 0)
@@ -1569,8 +1577,92 @@ type retEntry struct {
 }
 
 type cand struct {
-	f   fact
-	blk *ssa.BasicBlock
+	f      fact
+	blk    *ssa.BasicBlock
+	guard  *ssa.Phi // flag-guarded candidate: guard == gtruth  =>  f
+	gtruth bool
+}
+
+// guardHolds: control reaches `at` only with the boolean phi g equal to truth (at is dominated by that side of a branch on g)
+func guardHolds(g *ssa.Phi, truth bool, at ssa.Instruction) bool {
+	if g.Referrers() == nil {
+		return false
+	}
+	check := func(cond ssa.Value, want bool) bool {
+		if cond.Referrers() == nil {
+			return false
+		}
+		for _, r := range *cond.Referrers() {
+			iff, ok := r.(*ssa.If)
+			if !ok {
+				continue
+			}
+			b := iff.Block()
+			if len(b.Succs) != 2 || b.Succs[0] == b.Succs[1] {
+				continue
+			}
+			s := b.Succs[1]
+			if want {
+				s = b.Succs[0]
+			}
+			if len(s.Preds) == 1 && (s == at.Block() || s.Dominates(at.Block())) {
+				return true
+			}
+		}
+		return false
+	}
+	if check(g, truth) {
+		return true
+	}
+	for _, r := range *g.Referrers() {
+		if u, ok := r.(*ssa.UnOp); ok && u.Op == token.NOT && check(u, !truth) {
+			return true
+		}
+	}
+	return false
+}
+
+type guardCase struct {
+	kind int // 0 constant equal to the guarded truth, 1 constant of the other value, 2 the header phi itself (unchanged), 3 unknown
+	via  ssa.Instruction
+}
+
+// guardCases resolves the value the guard phi takes on an incoming edge into constant / unchanged / unknown cases, looking
+// through the join phis inside the loop body (each with the branch that leads to it as path condition)
+func guardCases(v ssa.Value, g *ssa.Phi, truth bool, via ssa.Instruction, depth int, out *[]guardCase) {
+	if len(*out) > 24 {
+		*out = append(*out, guardCase{3, via})
+		return
+	}
+	switch x := v.(type) {
+	case *ssa.Const:
+		if x.Value != nil && x.Value.Kind() == constant.Bool {
+			if constant.BoolVal(x.Value) == truth {
+				*out = append(*out, guardCase{0, via})
+			} else {
+				*out = append(*out, guardCase{1, via})
+			}
+			return
+		}
+	case *ssa.Phi:
+		if x == g {
+			*out = append(*out, guardCase{2, via})
+			return
+		}
+		if depth < 4 && x.Block() != g.Block() {
+			for j, e := range x.Edges {
+				pred := x.Block().Preds[j]
+				guardCases(e, g, truth, pred.Instrs[len(pred.Instrs)-1], depth+1, out)
+			}
+			return
+		}
+	case *ssa.UnOp:
+		if x.Op == token.NOT {
+			guardCases(x.X, g, !truth, via, depth+1, out)
+			return
+		}
+	}
+	*out = append(*out, guardCase{3, via})
 }
 
 func (p *prover) invariants(fn *ssa.Function) []hypF {
@@ -1604,7 +1696,7 @@ func (p *prover) invariants(fn *ssa.Function) []hypF {
 		var hyps []hypF
 		for i, c := range cands {
 			if alive[i] {
-				hyps = append(hyps, hypF{f: c.f, blk: c.blk})
+				hyps = append(hyps, hypF{f: c.f, blk: c.blk, guard: c.guard, gtruth: c.gtruth})
 			}
 		}
 		for i, c := range cands {
@@ -1617,6 +1709,32 @@ func (p *prover) invariants(fn *ssa.Function) []hypF {
 				term0 := pred.Instrs[len(pred.Instrs)-1]
 				na, nb := substEdge(c.f.a, c.blk, e), substEdge(c.f.b, c.blk, e)
 				hyps := append(append([]hypF{}, hyps...), edgeHyp(pred, c.blk)...)
+				if c.guard != nil {
+					// flag-guarded: on this edge the flag is a constant, unchanged, or unknown (case by case, with the
+					// branch leading to each case as path condition)
+					var cases []guardCase
+					guardCases(c.guard.Edges[e], c.guard, c.gtruth, nil, 0, &cases)
+					for _, gc := range cases {
+						if gc.kind == 1 {
+							continue // the flag has the other value: nothing to show
+						}
+						h2 := append([]hypF{}, hyps...)
+						if gc.via != nil {
+							h2 = append(h2, hypF{via: gc.via})
+						}
+						if gc.kind == 2 {
+							h2 = append(h2, hypF{f: c.f, blk: c.blk}) // unchanged flag: the fact held at the header
+						}
+						if !p.proveFlat(fn, term0, na, nb, c.f.c, h2) {
+							ok = false
+							break
+						}
+					}
+					if !ok {
+						break
+					}
+					continue
+				}
 				if !p.proveFlat(fn, term0, na, nb, c.f.c, hyps) {
 					if dbg := os.Getenv("SLOGCHECK_F6CAND"); dbg != "" && strings.Contains(anchorName(fn), dbg) {
 						fmt.Printf("F6CAND %s blk%d: %s - %s <= %d fails on edge %d (from blk%d): %s - %s\n", anchorName(fn), c.blk.Index, termStr(c.f.a), termStr(c.f.b), c.f.c, e, pred.Index, termStr(na), termStr(nb))
@@ -1645,13 +1763,17 @@ func (p *prover) invariants(fn *ssa.Function) []hypF {
 	var inv []hypF
 	for i, c := range cands {
 		if alive[i] {
-			inv = append(inv, hypF{f: c.f, blk: c.blk})
+			inv = append(inv, hypF{f: c.f, blk: c.blk, guard: c.guard, gtruth: c.gtruth})
 		}
 	}
 	if dbg := os.Getenv("SLOGCHECK_F6INV"); dbg != "" && strings.Contains(anchorName(fn), dbg) {
 		fmt.Printf("F6INV %s: %d candidates, %d invariants\n", anchorName(fn), len(cands), len(inv))
 		for _, h := range inv {
-			fmt.Printf("   blk%d: %s - %s <= %d\n", h.blk.Index, termStr(h.f.a), termStr(h.f.b), h.f.c)
+			g := ""
+			if h.guard != nil {
+				g = fmt.Sprintf("  [when %s == %v]", h.guard.Name(), h.gtruth)
+			}
+			fmt.Printf("   blk%d: %s - %s <= %d%s\n", h.blk.Index, termStr(h.f.a), termStr(h.f.b), h.f.c, g)
 		}
 	}
 	if old, ok := p.invCache[fn]; !ok || len(old.inv) != len(inv) {
@@ -1743,7 +1865,7 @@ func (p *prover) candidates(fn *ssa.Function) []cand {
 			return
 		}
 		seen[k] = true
-		out = append(out, cand{fact{a, b, c}, blk})
+		out = append(out, cand{f: fact{a, b, c}, blk: blk})
 	}
 	// values usable in an invariant of block blk: parameters, constants and values defined in a strict dominator
 	validAt := func(v ssa.Value, blk *ssa.BasicBlock) bool {
@@ -1894,6 +2016,42 @@ func (p *prover) candidates(fn *ssa.Function) []cand {
 					add(blk, valT(prm), t, 0)
 					add(blk, valT(prm), t, 1)
 					add(blk, t, valT(prm), 0)
+				}
+			}
+		}
+	}
+	// flag-guarded candidates: a boolean phi of a loop header (a scanner's state flag) implies a lower bound of a counter
+	// of the same header — "inValue => i >= 1", "rangeStarted => i >= 2"
+	for _, blk := range fn.Blocks {
+		if !isLoopHeader(blk) {
+			continue
+		}
+		var flags, ints []*ssa.Phi
+		for _, in := range blk.Instrs {
+			phi, ok := in.(*ssa.Phi)
+			if !ok {
+				break
+			}
+			if b, ok := phi.Type().Underlying().(*types.Basic); ok && b.Kind() == types.Bool {
+				flags = append(flags, phi)
+			} else if isIntType(phi.Type()) {
+				ints = append(ints, phi)
+			}
+		}
+		if len(flags) == 0 || len(flags) > 4 || len(ints) > 4 {
+			continue
+		}
+		for _, g := range flags {
+			for _, x := range ints {
+				for _, k := range []int64{1, 2} {
+					for _, truth := range []bool{true, false} {
+						key := fmt.Sprintf("%d|g%s=%v|%s|%d", blk.Index, g.Name(), truth, termKey(valT(x)), k)
+						if seen[key] {
+							continue
+						}
+						seen[key] = true
+						out = append(out, cand{f: fact{zeroT(), valT(x), -k}, blk: blk, guard: g, gtruth: truth})
+					}
 				}
 			}
 		}
